@@ -29,6 +29,7 @@ CANARIES = {  # disabled circuit-side check -> cfg
     "grinding range check": "RecVerifier_canary_pow",
     "last bit of the grinding range check (one leading zero too few enforced)": "RecVerifier_canary_pow1",
     "Merkle check of the Z/partial-products oracle": "RecVerifier_canary_oracle2",
+    "length check of the assignment routine (surplus elements silently dropped)": "RecVerifier_canary_assign",
     "final polynomial equality": "RecVerifier_canary_final",
     "constants/sigmas Merkle cap": "RecVerifier_canary_cap",
     "vanishing identity of challenge index 1": "RecVerifier_canary_vanishing1",
@@ -196,6 +197,26 @@ def judge(rows_by_id, res, cats, report, selftest=False):
         st["cases"] += 1
         payload = {"scenario": s, "class": x["class"], "shape": sh, "expected": {"spec": exp, "rule": "circuit acceptance = native verdict"},
                    "observed": x}
+        if x["class"].startswith("shape:"):
+            # shape classes: the assignment routine refusing (Err / clean panic) IS the circuit-side rejection
+            lst, direction = x["class"][6:].rsplit(":", 1)
+            accepted = bool(x["assignable"] and x["circuit"])
+            sc_ = st.setdefault("shape", {}).setdefault(lst, {"surplus": 0, "short": 0, "native_shape_reject_surplus": 0})
+            sc_[direction] += 1
+            if direction == "surplus" and not x["native"] and kind_of_detail(x["native_detail"]).startswith("other:"):
+                sc_["native_shape_reject_surplus"] += 1
+            st["stages"][x["stage"]] = st["stages"].get(x["stage"], 0) + 1
+            if accepted != x["native"]:
+                report("violation", "C06/shape/%s/%s" % (lst, direction),
+                       "the native verifier %s the inner proof (%s) but the outer circuit %s the assignment derived from it (%s)" % (
+                           "accepts" if x["native"] else "rejects", x["native_detail"][:80], "accepts" if accepted else "rejects", x["stage"]), payload)
+            else:
+                st["agree_accept" if x["native"] else "agree_reject"] += 1
+                st["distinct"].add((x["id"], x["class"], json.dumps(x["desc"], sort_keys=True)))
+            o = x.get("outer")
+            if o and accepted and not x["native"]:
+                payload["observed_outer"] = o
+            continue
         if not x["assignable"]:
             st["unassignable"] += 1
             continue
@@ -317,7 +338,15 @@ def run(chk, tier):
     chk.extra["classes"] = st["classes"]
     chk.extra["shapes"] = [x["shape"] for x in res if "shape" in x]
     # vacuity: every class of the full model must have been exercised, and rejected natively at least once
-    need = set(cats[2]) - {"none", "op_lzs", "op_lzs_next", "one_z", "vd_cap_one", "pow_exact"}
+    need = {c for c in set(cats[2]) - {"none", "op_lzs", "op_lzs_next", "one_z", "vd_cap_one", "pow_exact"} if not c.startswith("shape:")}
+    # shape classes: per list at least one surplus case that the native verifier rejected for a shape reason
+    shp = st.get("shape", {})
+    chk.extra["shape_classes"] = shp
+    lists = {c[6:].rsplit(":", 1)[0] for x in res if "shape" in x for c in cats[min(len(x["shape"]["layers"]), 3)] if c.startswith("shape:")}
+    noshape = sorted(l for l in lists if shp.get(l, {}).get("native_shape_reject_surplus", 0) == 0 or shp[l]["short"] == 0
+                     and l not in ("op_lzs", "op_lzs_next"))
+    if noshape:
+        raise ToolError("vacuity: shape classes without a natively shape-rejected surplus case (or without a short case): %s" % noshape)
     missing = sorted(c for c in need if st["classes"].get(c, {}).get("native_reject", 0) == 0)
     if thorough:
         missing += [c for c in ("op_lzs", "op_lzs_next") if st["classes"].get(c, {}).get("n", 0) == 0]
